@@ -124,7 +124,13 @@ func (x *Exec) lookupLocal(env *Env, name string) (Val, bool) {
 		}
 	}
 	if len(cands) == 0 {
-		return Val{}, false
+		// the name is not in the function (any more): a local that was only renamed is found through the position
+		// recorded for it on the unchanged tree (the N-th named local of its type, in declaration order)
+		if al := x.E.localByHint(env.fr.fn, want); al != nil {
+			cands = append(cands, al)
+		} else {
+			return Val{}, false
+		}
 	}
 	lst := env.st
 	if env.localsSt != nil {
